@@ -129,6 +129,8 @@ def main():
             "how_run": "tools/seeded.sh <patch.diff> <ID...>: scratch copy of /repo/pandora + patch, ./check <ID> with PANDORA_VERIF_REPO pointing at it",
             "check_strengthened_because_of_it": strengthened or None,
         }
+        if name == "C01-3":
+            meta["neutralised_by"] = "a1b4bed"
         json.dump(meta, open(os.path.join(dst, "meta.json"), "w"), indent=1)
     print("collected", len(items))
 main()
